@@ -98,6 +98,7 @@ type rHist struct {
 	HistMs  int64             `json:"hist_ms"`
 	OwnHbMs int64             `json:"ownhb_ms"`
 	Attempt int               `json:"attempt"`
+	Thr     string            `json:"thr"` // entries with a Timestamp below this (ns) can be removed by the Cleanup ticker at any moment: kept out of the compared table
 	Extra   map[string]string `json:"extra,omitempty"`
 }
 
@@ -223,6 +224,7 @@ type rNode struct {
 	curGS        *node_common.GuardianSet // what the harness installed last (bookkeeping for the monitor)
 	pending      *rOp                     // the envelope handed to the network / the node and not yet acknowledged
 	started      time.Time
+	thr          int64
 }
 
 type rTimeout struct{ what string }
@@ -263,7 +265,8 @@ func rStartNode(t *testing.T, id int, r *vrng, disable bool, shape string, attem
 		signedInC:    make(chan *gossipv1.SignedVAAWithQuorum, 50),
 		gst:          node_common.NewGuardianSetState(nil),
 		kecT:         map[string]bool{}, recT: map[string]bool{}, dhT: map[string]bool{}, drT: map[string]bool{}}
-	n.h = &rHist{K: "run", ID: id, Shape: shape, Disable: disable, Attempt: attempt, Extra: map[string]string{}}
+	n.thr = time.Now().Add(120 * time.Hour).UnixNano()
+	n.h = &rHist{K: "run", ID: id, Shape: shape, Disable: disable, Attempt: attempt, Extra: map[string]string{}, Thr: strconv.FormatInt(n.thr, 10)}
 	topic := fmt.Sprintf("%s/%s", rNetworkID, "broadcast")
 	for i := 0; i < 2; i++ {
 		p, e := rNewPeer(ctx, r, topic)
@@ -418,9 +421,14 @@ func (n *rNode) snapshot() (out []rEntry, own []rEntry) {
 	return
 }
 
-func rTableSum(es []rEntry) (sum uint64, na int) {
+// checksum / counts over the entries the Cleanup ticker can never remove (Timestamp >= thr)
+func rTableSum(es []rEntry, thr int64) (sum uint64, ne int, na int) {
 	seen := map[common.Address]bool{}
 	for _, e := range es {
+		if e.ts < thr {
+			continue
+		}
+		ne++
 		var b []byte
 		b = append(b, e.addr[:]...)
 		var l [2]byte
@@ -433,7 +441,7 @@ func rTableSum(es []rEntry) (sum uint64, na int) {
 		sum = (sum + vhash(b)) % vHmod
 		seen[e.addr] = true
 	}
-	return sum, len(seen)
+	return sum, ne, len(seen)
 }
 
 func rDiff(before, after []rEntry) (added, removed, changed []rEntry) {
@@ -520,6 +528,8 @@ func (n *rNode) barrier(x int) (outs [][2]string, ptrs []interface{}) {
 func (n *rNode) waitMesh() {
 	t0 := time.Now()
 	okDir := [2]bool{}
+	lastRe := [2]time.Time{t0, t0}
+	force := os.Getenv("VERIF_P2P_FORCE_RECONNECT") != ""
 	k := 0
 	for time.Since(t0) < rMeshWait && !(okDir[0] && okDir[1]) {
 		for x := 0; x < 2; x++ {
@@ -533,7 +543,25 @@ func (n *rNode) waitMesh() {
 			w := n.peers[1-x]
 			from := n.peers[x].h.ID()
 			if m := w.take(func(m *pubsub.Message) bool { return m.ReceivedFrom == n.id && m.GetFrom() == from && bytes.Equal(m.Data, data) }, 400*time.Millisecond, n.exited); m != nil {
+				if force && lastRe[x] == t0 {
+					n.reconnect(x)
+					lastRe[x] = time.Now()
+					continue
+				}
 				okDir[x] = true
+			} else if time.Since(lastRe[x]) > 3*time.Second {
+				// G dials its bootstrap peers from inside libp2p.New, before its pubsub (and the gossipsub stream handler) exists: a
+				// peer that opens its gossipsub stream in that window is refused and go-libp2p-pubsub does not try again on the same
+				// connection.  Any peer of a real network would eventually reconnect; so does this one.
+				n.reconnect(x)
+				lastRe[x] = time.Now()
+			}
+		}
+		for drained := false; !drained; { // probes that already came out of obsvC (nobody else reads it yet)
+			select {
+			case <-n.obsvC:
+			default:
+				drained = true
 			}
 		}
 		select {
@@ -549,6 +577,20 @@ func (n *rNode) waitMesh() {
 	n.barrier(0)
 	n.barrier(1)
 	n.h.MeshMs = time.Since(t0).Milliseconds()
+}
+
+// test peer x drops its connection to G and dials G's listen address again (as learnt through identify)
+func (n *rNode) reconnect(x int) {
+	h := n.peers[x].h
+	addrs := h.Peerstore().Addrs(n.id)
+	if len(addrs) == 0 {
+		return // G has not connected yet: keep waiting
+	}
+	n.h.Extra[fmt.Sprintf("reconnect_peer%d", x)] = strconv.Itoa(len(addrs)) + " addrs"
+	_ = h.Network().ClosePeer(n.id)
+	cctx, cancel := context.WithTimeout(n.ctx, 5*time.Second)
+	defer cancel()
+	_ = h.Connect(cctx, peer.AddrInfo{ID: n.id, Addrs: addrs})
 }
 
 // ------------------------------------------------------------------ operations
@@ -732,7 +774,13 @@ func (n *rNode) opLocalReq(req *gossipv1.ObservationRequest, note string) {
 // ---- monitor: the property statement on one dispatched envelope, evaluated with direct crypto
 func (n *rNode) monitor(op *rOp, msg *gossipv1.GossipMessage, from peer.ID, loopback bool, before []rEntry, st *rStep, ptrs []interface{}) {
 	after, own := n.snapshot()
-	added, removed, changed := rDiff(before, after)
+	added, removed0, changed := rDiff(before, after)
+	var removed []rEntry
+	for _, e := range removed0 { // the Cleanup ticker (real clock) removes entries with old Timestamps whenever it fires
+		if e.ts >= n.thr {
+			removed = append(removed, e)
+		}
+	}
 	touched := len(added) + len(removed) + len(changed)
 	for _, e := range own {
 		if e.addr != n.ourAddr {
@@ -847,8 +895,7 @@ func (n *rNode) monitor(op *rOp, msg *gossipv1.GossipMessage, from peer.ID, loop
 
 func (n *rNode) finish(op rOp, st *rStep, before []rEntry, _ interface{}) {
 	after, own := n.snapshot()
-	st.TH, st.NA = rTableSum(after)
-	st.NE = len(after)
+	st.TH, st.NE, st.NA = rTableSum(after, n.thr)
 	st.Own = len(own)
 	if st.Outs == nil {
 		st.Outs = [][2]string{}
@@ -1277,7 +1324,9 @@ func rHistory(t *testing.T, id int, seed uint64, disable bool, nsteps int, attem
 		}
 	}
 	h.HistMs = time.Since(t0).Milliseconds()
-	n.ownHeartbeat()
+	if os.Getenv("VERIF_P2P_SKIP_OWNHB") == "" { // (start-up stress runs of the harness itself skip the 15 s wait)
+		n.ownHeartbeat()
+	}
 	return h
 }
 
